@@ -17,7 +17,7 @@ from .common import (P, box, check_defined, evalf, load_sym, model_floats, not_c
 from .c08 import load_fluid_with_ufs
 
 
-def replay_facade(model, method="oil_FVF", reassigned=False, container="array", three=False):
+def replay_facade(model, method="oil_FVF", reassigned=False, container="array", three=False, dtype="f8"):
     import numpy as np
     from bluebonnet.fluids import Fluid
     from bluebonnet.fluids import gas, oil, water
@@ -33,6 +33,8 @@ def replay_facade(model, method="oil_FVF", reassigned=False, container="array", 
     else:
         f = Fluid(m["T"], m["api"], m["gg"], m["rsi"], m["S"], m["Swi"])
     p = np.array([m["p0"], m["p1"]] + ([m["p2"]] if three else []))
+    if dtype != "f8":
+        p = np.array([int(round(x)) for x in p], dtype="int64")      # whole psi in an integer-typed array
     ref = {
         "water_FVF": lambda q: water.b_water_McCain(m["T"], q),
         "water_viscosity": lambda q: water.viscosity_water_McCain(m["T"], q, m["S"]),
@@ -48,6 +50,8 @@ def replay_facade(model, method="oil_FVF", reassigned=False, container="array", 
         # the pressure column of a table whose rows were re-ordered (index labels 1, 0 in row order)
         import pandas as pd
         p_in = pd.Series(p, index=[1, 0])
+    elif container == "reversed view":
+        p_in = p[::-1].copy()[::-1]          # same values, negative stride
     elif container == "list":
         p_in = p.tolist()
     else:
@@ -66,7 +70,7 @@ def replay_facade(model, method="oil_FVF", reassigned=False, container="array", 
     if not bad and three:
         # orders whose sorting permutation is not its own inverse, and a repeated pressure
         for q in ([2500.0, 500.0, 4000.0, 1500.0], [3000.0, 1000.0, 3000.0], [m["p1"], m["p2"], m["p0"]]):
-            q = np.array(q)
+            q = np.array(q) if dtype == "f8" else np.array([int(round(x)) for x in q], dtype="int64")
             a2 = (q, m["Tpc"], m["ppc"]) if method.startswith("gas") else (q,)
             try:
                 g2 = np.array(getattr(f, method)(*a2), dtype=float)
@@ -94,9 +98,11 @@ def replay_sutton(model, case="no contaminants", fluid="dry gas"):
     return bad, {"what": f"zero-fraction extra component changes the pseudocritical point: {a!r} vs {b!r}", "inputs": m}
 
 
-def _plain_obligations(job, f, dom, want, p):
+def _plain_obligations(job, f, dom, want, p, dtype="f8"):
     n = len(p.d)
     rkw = {"three": True} if n == 3 else {}
+    if dtype != "f8":
+        rkw["dtype"] = dtype
     for name, (args, ref) in want.items():
         def run_plain():
             snap = list(p.d)
@@ -126,7 +132,9 @@ def _container_obligations(job, f, vs, dom, want, p, names=None):
     # the same through other containers of pressures: a pandas Series whose index labels are not 0..n-1 in row order (a
     # column of a re-ordered table; positions, not labels, pair pressures with results) and a plain list
     from ..shims import pd_shim
-    for cont, mk in (("series", lambda: pd_shim.SymSeries([vs["p0"], vs["p1"]], "f8", [1, 0])),):
+    # ... and a reversed view of another array (np.flip / p[::-1]: logical order p0, p1, memory order p1, p0)
+    for cont, mk in (("series", lambda: pd_shim.SymSeries([vs["p0"], vs["p1"]], "f8", [1, 0])),
+                     ("reversed view", lambda: SymArray([vs["p1"], vs["p0"]], "f8")[::-1])):
         for name, (args, ref) in want.items():
             if names is not None and name not in names:
                 continue
@@ -141,7 +149,7 @@ def _container_obligations(job, f, vs, dom, want, p, names=None):
                 if not isinstance(got, SymArray) or len(got) != 2:
                     job.errors.append(f"facade/{name}[{cont}]: result is not a length-2 array")
                     continue
-                job.prove(f"facade/{name}[{cont} of pressures, labels 1,0]==stand-alone correlation element-wise by position[path{k}]",
+                job.prove(f"facade/{name}[{cont} of pressures{', labels 1,0' if cont == 'series' else ''}]==stand-alone correlation element-wise by position[path{k}]",
                           pr.pc + [T.b_or(*[not_close(got.d[j], ref(p.d[j]), abs_tol=Fraction(0)) for j in range(2)])], bound="2 pressures", replay=rp)
 
 
@@ -252,20 +260,22 @@ def job_facade_oil_reassigned(job):
     want = {"oil_FVF": ((p,), lambda q: ufs["b_o_Standing"](T_, q, api, gg, rsi)),
             "oil_viscosity": ((p,), lambda q: ufs["viscosity_beggs_robinson"](T_, q, api, gg, rsi))}
     _reassigned_obligations(job, mod, vs, dom, want, p)
+    _container_obligations(job, mod.Fluid(T_, api, gg, rsi, vs["S"], vs["Swi"]), vs, dom, want, p)
     job.prove("facade-oil/reach", dom, expect="sat")
 
 
-def job_facade_three(job):
+def job_facade_three(job, dtype="f8"):
     """Three pressures in any order (sorted, unsorted, with repeats) through every facade method: one result per pressure,
     in the caller's order."""
     mod, gas, ufs = load_fluid_with_ufs()
     job.encoded(mod, "Fluid.water_FVF", "Fluid.water_viscosity", "Fluid.gas_FVF", "Fluid.gas_viscosity", "Fluid.oil_FVF", "Fluid.oil_viscosity")
     job.stub("stand-alone correlations imported by fluid.py: uninterpreted recording functions of their arguments")
-    job.bound(facade_array_length=3, order="any (no ordering assumed between the three pressures; equal pressures allowed)")
+    job.bound(facade_array_length=3, order="any (no ordering assumed between the three pressures; equal pressures allowed)",
+              pressure_dtype={"f8": "float64", "i8": "int64 (whole psi)"}[dtype])
     vs, dom = box(None, T=(60, 400), api=(10, 60), gg=("0.5", "1.5"), rsi=(0, 3000), S=(0, 25), Swi=(0, 1), p0=(15, 20000), p1=(15, 20000), p2=(15, 20000),
                   Tpc=(-200, 100), ppc=(200, 1500))
     f = mod.Fluid(vs["T"], vs["api"], vs["gg"], vs["rsi"], vs["S"], vs["Swi"])
-    p = SymArray([vs["p0"], vs["p1"], vs["p2"]], "f8")
+    p = SymArray([vs["p0"], vs["p1"], vs["p2"]], dtype)
     T_, api, gg, rsi, S = (vs[k] for k in ("T", "api", "gg", "rsi", "S"))
     want = {
         "water_FVF": ((p,), lambda q: ufs["b_water_McCain"](T_, q)),
@@ -275,7 +285,7 @@ def job_facade_three(job):
         "oil_FVF": ((p,), lambda q: ufs["b_o_Standing"](T_, q, api, gg, rsi)),
         "oil_viscosity": ((p,), lambda q: ufs["viscosity_beggs_robinson"](T_, q, api, gg, rsi)),
     }
-    _plain_obligations(job, f, dom, want, p)
+    _plain_obligations(job, f, dom, want, p, dtype=dtype)
     job.prove("facade-three/reach", dom, expect="sat")
 
 
@@ -439,7 +449,7 @@ FALLBACK = [(replay_facade, {"method": m_}) for m_ in ("water_FVF", "water_visco
 
 
 def jobs(tier):
-    out = [("facade", job_facade), ("facade-three-pressures", job_facade_three), ("table45", lambda j: job_table(j, 45)), ("sutton", job_sutton), ("unknown-fluid", job_unknown_fluid)]
+    out = [("facade", job_facade), ("facade-three-pressures", job_facade_three), ("facade-three-pressures-int64", lambda j: job_facade_three(j, "i8")), ("table45", lambda j: job_table(j, 45)), ("sutton", job_sutton), ("unknown-fluid", job_unknown_fluid)]
     if tier != "quick":
         out.append(("table75", lambda j: job_table(j, 75)))
         out.append(("table50", lambda j: job_table(j, 50)))
